@@ -75,18 +75,17 @@ Qed.
    (whatever non-reset, non-seed calls come before it) hands seed + i to sub-environment i *)
 Theorem make_vec_env_first_reset_seeds : forall E O A I Opt
   (e_step : E -> A -> E * (O * Z * bool * bool * I)) (e_reset : E -> option Z -> option Opt -> E * (O * I))
-  (envs : list E) n seed drawn start dir wc i e (mid post : list (vop A Opt)),
-  length envs = n -> nth_error envs i = Some e ->
-  let s := snd (make_vec_env n seed drawn start dir wc) in
+  (envs : list E) seed drawn start dir wc i e (mid post : list (vop A Opt)),
+  nth_error envs i = Some e ->
+  let s := snd (make_vec_env (length envs) seed drawn start dir wc) in
   Forall (wf_vop (length envs)) (([] ++ VSeed s :: mid) ++ VReset :: post) ->
   forallb vquiet mid = true ->
-  s = match seed with Some x => x | None => drawn end /\
   exists out obs ri o,
     nth_error (vrun e_step e_reset (vinit envs) (([] ++ VSeed s :: mid) ++ VReset :: post)) (length ([] ++ VSeed s :: mid)) = Some out /\
-    proj_out i out = Some (SOReset obs ri [CReset (Some (s + Z.of_nat i)%Z) o]).
+    proj_out i out = Some (SOReset obs ri [CReset (Some (match seed with Some x => x | None => drawn end + Z.of_nat i)%Z) o]).
 Proof.
-  intros E O A I Opt e_step e_reset envs n seed drawn start dir wc i e mid post Ln He s W Q.
-  split; [reflexivity|]. eapply vec_seed_delivery; eauto.
+  intros E O A I Opt e_step e_reset envs seed drawn start dir wc i e mid post He s W Q.
+  eapply vec_seed_delivery; eauto.
 Qed.
 
 (* ---------- sync_envs_normalization ---------- *)
@@ -148,15 +147,25 @@ Proof.
 Qed.
 End Sync.
 
-(* with builder-stats' VecNormalize model (Model/VecNorm.v, read only) as the per-level copy: every VecNormalize level
-   of the eval chain ends with the training level's observation and return statistics, keeping its own returns/flags *)
-Theorem sync_levels_vecnorm : forall train evalc r k st se,
-  sync_chain VecNorm.sync train evalc = Some r ->
-  nth_error train k = Some (LNorm st) -> nth_error evalc k = Some (LNorm se) ->
-  exists s', nth_error r k = Some (LNorm s') /\
-    v_obs_rms s' = v_obs_rms st /\ v_ret_rms s' = v_ret_rms st /\ v_returns s' = v_returns se /\ v_training s' = v_training se.
+(* with builder-stats' VecNormalize model (Model/VecNorm.v, read only).  A level is (state, has_obs_rms) where has_obs_rms is
+   what `hasattr(level, "obs_rms")` answers: the level's own attribute (norm_obs) or, through VecEnvWrapper.__getattr__, the
+   unique inner holder's (then v_obs_rms of the training level stands for those forwarded statistics).  ret_rms is copied at
+   every VecNormalize level, obs_rms only under that guard; the eval level keeps its returns, old observations and flags. *)
+Definition vn_copy (t e : vn * bool) : vn * bool :=
+  (mk_vn (if snd t then v_obs_rms (fst t) else v_obs_rms (fst e)) (v_ret_rms (fst t)) (v_returns (fst e)) (v_old_obs (fst e))
+         (v_old_rew (fst e)) (v_training (fst e)) (v_norm_obs (fst e)) (v_norm_reward (fst e)),
+   snd t || snd e).
+
+Theorem sync_levels_vecnorm : forall train evalc r k st h se he,
+  sync_chain vn_copy train evalc = Some r ->
+  nth_error train k = Some (LNorm (st, h)) -> nth_error evalc k = Some (LNorm (se, he)) ->
+  exists s', nth_error r k = Some (LNorm (s', h || he)) /\
+    v_ret_rms s' = v_ret_rms st /\
+    v_obs_rms s' = (if h then v_obs_rms st else v_obs_rms se) /\
+    (h = true -> s' = VecNorm.sync st se) /\
+    v_returns s' = v_returns se /\ v_training s' = v_training se /\ v_norm_obs s' = v_norm_obs se /\ v_norm_reward s' = v_norm_reward se.
 Proof.
-  intros train evalc r k st se H Ht He.
-  destruct (sync_levels VecNorm.sync train evalc r H) as [_ N]. specialize (N k). rewrite Ht, He in N.
-  exists (VecNorm.sync st se). split; [exact N|]. repeat split.
+  intros train evalc r k st h se he H Ht He.
+  destruct (sync_levels vn_copy train evalc r H) as [_ N]. specialize (N k). rewrite Ht, He in N.
+  eexists. split; [exact N|]. cbn. repeat split. intros ->. reflexivity.
 Qed.
